@@ -50,6 +50,10 @@ var Families = map[string]func(t *testing.T, seed int64, steps int) *Cluster{
 	"verifywide":  famVerifyWide,
 	"fastpathterm": famFastPathTerm,
 	"fastpathup":  famFastPathUp,
+	"mixedbatch":  famMixedBatch,
+	"xfernonvoter": famXferNonVoter,
+	"cfgtruncelect": famCfgTruncElect,
+	"snapvote":    famSnapVote,
 	"transferstuck": famTransferStuck, // not in any plan: kept as a scenario, the defect it was written for needs a rarer trigger (see DESIGN 7.16)
 }
 
